@@ -743,12 +743,12 @@ def shards(tier):
     for name, strat, runner in specials:
         out.append(Shard(name, (lambda case, runner=runner, name=name: check_special(case, runner, name)),
                          strategy=with_real_loop(strat(tier)), n=150, nontrivial=lambda c: False, thorough_mult=15))
-    out += [Shard(f"sync-long-{name}", check_sync, strategy=sync_cases(name, long=True), n=25,
+    out += [Shard(f"sync-long-{name}", check_sync, fuzz=0, strategy=sync_cases(name, long=True), n=25,
                   nontrivial=lambda c: True, thorough_mult=10) for name in ALL]
-    out += [Shard(f"sync-huge-{name}", check_sync, strategy=huge_cases(name, False).map(lambda c: dict(c, real_loop=True)),
+    out += [Shard(f"sync-huge-{name}", check_sync, fuzz=0, strategy=huge_cases(name, False).map(lambda c: dict(c, real_loop=True)),
                   n=2, nontrivial=lambda c: True, thorough_mult=2) for name in HUGE if name in TOOLS]
     # ... and with the optional callable (key / predicate / function) given: other code paths, same promise
-    out += [Shard(f"sync-huge-{name}-fn", check_sync, strategy=huge_cases(name, True).map(lambda c: dict(c, real_loop=True)),
+    out += [Shard(f"sync-huge-{name}-fn", check_sync, fuzz=0, strategy=huge_cases(name, True).map(lambda c: dict(c, real_loop=True)),
                   n=2, nontrivial=lambda c: True, thorough_mult=2)
             for name in HUGE if name in TOOLS and TOOLS[name].optional_roles]
     out.append(Shard("tee-concurrent-close", check_tee_close, strategy=tee_close_cases(), n=400,
@@ -784,6 +784,6 @@ def shards(tier):
                      nontrivial=lambda c: c["handler"] != "none", exhaustive=True))
     out.append(Shard("sync-adapters", check_adapter, cases=lambda: [{"adapter": k} for k in _adapters()],
                      nontrivial=lambda c: True, exhaustive=True))
-    out.append(Shard("no-asyncio-subprocess", check_battery, strategy=batteries(tier), n=4,
+    out.append(Shard("no-asyncio-subprocess", check_battery, fuzz=0, strategy=batteries(tier), n=4,
                      nontrivial=lambda c: False, thorough_mult=5))
     return out
